@@ -222,6 +222,8 @@ class Spec(core.PropSpec):
 
     def execute(self, plan):
         from types import SimpleNamespace
+        import numpy as np
+        import torch
         from kappadata.wrappers import ModeWrapper
         from simkit.deep import deep_diff, h
         from simkit.simloader import SimWorker
@@ -302,7 +304,10 @@ class Spec(core.PropSpec):
                         if n == 0:
                             continue
                         i = op[2] % n
-                        got, exp = rep[i], ref(i)
+                        # samplers hand over numpy / torch integers as often as python ints
+                        form = op[2] % 3
+                        ii = i if form == 0 else (np.int64(i) if form == 1 else int(torch.tensor(i)))
+                        got, exp = rep[ii], ref(i)
                     elif kind == "neg":
                         if n == 0:
                             continue
@@ -315,7 +320,8 @@ class Spec(core.PropSpec):
                         if n == 0:
                             continue
                         idxs = [(j % n) if j >= 0 else -((-j - 1) % n) - 1 for j in op[2]]
-                        got, exp = rep[idxs], [ref(j if j >= 0 else n + j) for j in idxs]
+                        as_np = [np.int64(j) for j in idxs] if len(idxs) % 2 else idxs
+                        got, exp = rep[as_np], [ref(j if j >= 0 else n + j) for j in idxs]
                     elif kind == "iter":
                         got, exp = list(rep), [ref(j) for j in range(n)]
                     else:
